@@ -28,6 +28,7 @@ import (
 	"net"
 	"net/http"
 	"os"
+	"runtime"
 	"sort"
 	"strconv"
 	"strings"
@@ -93,24 +94,178 @@ func (c *srvConn) push(ip string, msg string) bool {
 type srvCall struct {
 	shard uintptr // identity of the aggregator's map object
 	flat  map[string]*ref.Series
+	group int // the flush it belongs to, see srvBackend
 }
 
+type srvPending struct {
+	cb    gostatsd.SendCallback
+	data  bool
+	group int
+}
+
+// srvBackend captures every hand-over synchronously and answers the callbacks from a goroutine of its own,
+// following a script: a flush hands over one map per aggregator and waits for all callbacks, so the backend
+// waits for all of them, then answers the whole flush - at once, after the harness has sent more traffic
+// ("hold"), and/or with an error for every other callback ("err").
+//
+// Flush attribution: a hand-over that arrives while callbacks of the current group have not been invoked yet,
+// or from inside a callback invocation (same goroutine), belongs to the current group; otherwise it opens the
+// next one (the flusher cannot start a flush before every callback of the previous one has been invoked).
 type srvBackend struct {
-	mu    sync.Mutex
-	calls []srvCall
-	n     atomic.Int64
+	mu         sync.Mutex
+	calls      []srvCall
+	pending    []srvPending
+	group      int
+	open       bool
+	invoking   uint64
+	workers    int
+	script     []string
+	dataGroups int
+	nHeld      int
+	nErrors    int
+	holding    atomic.Bool
+	draining   atomic.Bool
+	releaseCh  chan struct{}
+	wake       chan struct{}
+	n          atomic.Int64
+}
+
+func newSrvBackend(workers int, script []string) *srvBackend {
+	return &srvBackend{workers: workers, script: script, releaseCh: make(chan struct{}, 1), wake: make(chan struct{}, 1)}
+}
+
+func goid() uint64 {
+	var buf [64]byte
+	f := strings.Fields(string(buf[:runtime.Stack(buf[:], false)]))
+	if len(f) < 2 {
+		return 0
+	}
+	id, _ := strconv.ParseUint(f[1], 10, 64)
+	return id
+}
+
+func hasData(flat map[string]*ref.Series) bool {
+	for _, s := range flat {
+		if s.Counter != 0 || len(s.Values) > 0 || len(s.Members) > 0 {
+			return true
+		}
+	}
+	return false
 }
 
 func (b *srvBackend) Name() string                                   { return "c06-capture" }
 func (b *srvBackend) SendEvent(context.Context, *gostatsd.Event) error { return nil }
 func (b *srvBackend) SendMetricsAsync(_ context.Context, mm *gostatsd.MetricMap, cb gostatsd.SendCallback) {
-	call := srvCall{shard: mapIdentity(mm), flat: ref.FromMap(mm)}
+	flat := ref.FromMap(mm) // synchronously: the map belongs to the aggregator again when this returns
+	gid := goid()
 	b.mu.Lock()
-	b.calls = append(b.calls, call)
+	if !(b.open && (len(b.pending) > 0 || (b.invoking != 0 && b.invoking == gid))) {
+		b.group++
+		b.open = true
+	}
+	b.calls = append(b.calls, srvCall{shard: mapIdentity(mm), flat: flat, group: b.group})
+	b.pending = append(b.pending, srvPending{cb: cb, data: hasData(flat), group: b.group})
 	b.mu.Unlock()
 	b.n.Add(1) // data first, then the counter a waiter polls
-	cb(nil)
+	select {
+	case b.wake <- struct{}{}:
+	default:
+	}
 }
+
+func (b *srvBackend) release() {
+	select {
+	case b.releaseCh <- struct{}{}:
+	default:
+	}
+}
+
+// run answers the callbacks until stop is closed.
+func (b *srvBackend) run(stop <-chan struct{}) {
+	me := goid()
+	invoke := func(fail bool) {
+		b.mu.Lock()
+		p := b.pending[0]
+		b.pending = b.pending[1:]
+		b.invoking = me
+		if fail {
+			b.nErrors++
+		}
+		b.mu.Unlock()
+		if fail {
+			p.cb([]error{errors.New("scripted backend failure")})
+		} else {
+			p.cb(nil)
+		}
+		b.mu.Lock()
+		b.invoking = 0
+		b.mu.Unlock()
+	}
+	for {
+		select {
+		case <-stop:
+			return
+		case <-b.wake:
+		}
+		for {
+			b.mu.Lock()
+			n := len(b.pending)
+			b.mu.Unlock()
+			if n == 0 {
+				break
+			}
+			// one map per aggregator: wait for the whole flush (not for ever: a flush may be short)
+			mon.WaitUntil(2*time.Second, func() bool {
+				b.mu.Lock()
+				defer b.mu.Unlock()
+				return len(b.pending) >= b.workers || b.draining.Load()
+			})
+			b.mu.Lock()
+			batch, grp, data := len(b.pending), b.pending[0].group, false
+			for _, p := range b.pending {
+				data = data || p.data
+			}
+			action := "ok"
+			if data && !b.draining.Load() {
+				if b.dataGroups < len(b.script) {
+					action = b.script[b.dataGroups]
+				}
+				b.dataGroups++
+			}
+			if strings.Contains(action, "hold") {
+				b.nHeld++
+			}
+			b.mu.Unlock()
+			if strings.Contains(action, "hold") {
+				b.holding.Store(true)
+				select {
+				case <-b.releaseCh:
+				case <-time.After(20 * time.Second):
+				}
+				b.holding.Store(false)
+			}
+			for i := 0; i < batch; i++ {
+				invoke(strings.Contains(action, "err") && i%2 == 0)
+			}
+			// hand-overs made from inside those callbacks belong to the same flush: answered at once
+			for {
+				b.mu.Lock()
+				more := len(b.pending) > 0 && b.pending[0].group == grp
+				b.mu.Unlock()
+				if !more {
+					break
+				}
+				invoke(false)
+			}
+			b.mu.Lock()
+			if len(b.pending) == 0 {
+				b.open = false
+			}
+			b.mu.Unlock()
+		}
+	}
+}
+
 func (b *srvBackend) snapshot() []srvCall {
 	b.mu.Lock()
 	defer b.mu.Unlock()
@@ -203,6 +358,9 @@ type srvCase struct {
 	Static  []string     `json:"static"`
 	Sources []srvSource  `json:"sources"`
 	Rounds  [][]srvPoint `json:"rounds"`
+	// Script: what the backend does with the successive flushes that carry data: "ok", "hold" (callbacks kept
+	// until the harness has sent the next round), "err" (every other callback reports an error), "hold+err".
+	Script []string `json:"script"`
 }
 
 func (sc *srvCase) source(addr string) *srvSource {
@@ -296,8 +454,86 @@ const (
 )
 
 type srvWant struct {
-	counter int64 // total sent (counters only)
-	isCount bool
+	typ     int
+	counter int64           // total sent (counters)
+	vals    map[float64]int // timer values sent (unique per datapoint)
+	members map[string]bool // set members sent
+}
+
+func (w *srvWant) add(p srvPoint) {
+	switch p.Type {
+	case 1:
+		w.counter += int64(p.Value)
+	case 2:
+		w.vals[float64(p.Value)]++
+	case 4:
+		w.members[strconv.Itoa(p.Value)] = true
+	}
+}
+
+func wantOf(sc *srvCase, rounds [][]srvPoint) map[string]*srvWant {
+	want := map[string]*srvWant{}
+	for _, round := range rounds {
+		for _, p := range round {
+			id := sc.identity(p)
+			if want[id] == nil {
+				want[id] = &srvWant{typ: p.Type, vals: map[float64]int{}, members: map[string]bool{}}
+			}
+			want[id].add(p)
+		}
+	}
+	return want
+}
+
+// srvReported accumulates what the aggregators handed over, per series identity.
+type srvReported struct {
+	present map[string]bool
+	counter map[string]int64
+	vals    map[string]map[float64]int
+	members map[string]map[string]bool
+}
+
+func reportedOf(calls []srvCall) *srvReported {
+	rp := &srvReported{present: map[string]bool{}, counter: map[string]int64{}, vals: map[string]map[float64]int{}, members: map[string]map[string]bool{}}
+	for _, call := range calls {
+		for _, s := range call.flat {
+			id := seriesIdentity(s)
+			rp.present[id] = true
+			rp.counter[id] += s.Counter
+			for _, v := range s.Values {
+				if rp.vals[id] == nil {
+					rp.vals[id] = map[float64]int{}
+				}
+				rp.vals[id][v]++
+			}
+			for _, m := range s.Members {
+				if rp.members[id] == nil {
+					rp.members[id] = map[string]bool{}
+				}
+				rp.members[id][m] = true
+			}
+		}
+	}
+	return rp
+}
+
+// short lists the identities of want that have not been reported completely yet.
+func (rp *srvReported) short(want map[string]*srvWant) []string {
+	var out []string
+	for id, w := range want {
+		ok := rp.present[id] && rp.counter[id] >= w.counter
+		for v := range w.vals {
+			ok = ok && rp.vals[id][v] > 0
+		}
+		for m := range w.members {
+			ok = ok && rp.members[id][m]
+		}
+		if !ok {
+			out = append(out, id)
+		}
+	}
+	sort.Strings(out)
+	return out
 }
 
 // runSrv plays the case once: (status, reason, calls, identities still unreported).
@@ -325,7 +561,10 @@ func (c *checker) runSrvOnce(sc *srvCase) (int, string, []srvCall, []string) {
 	if err := v.ReadConfig(bytes.NewBufferString(fmt.Sprintf("http-servers=['ingest']\n\n[http.ingest]\naddress='%s'\nenable-ingestion=true\nenable-healthcheck=false\n", addr))); err != nil {
 		return srvInconclusive, "config-text-unreadable", nil, nil
 	}
-	backend := &srvBackend{}
+	backend := newSrvBackend(sc.Workers, sc.Script)
+	stopAnswering := make(chan struct{})
+	go backend.run(stopAnswering)
+	defer close(stopAnswering)
 	srv := &statsd.Server{
 		Backends: []gostatsd.Backend{backend}, DefaultTags: append(gostatsd.Tags{}, sc.Static...),
 		FlushInterval: 20 * time.Millisecond, MaxReaders: 1, MaxParsers: sc.Parsers, MaxWorkers: sc.Workers, MaxQueueSize: 64, MaxConcurrentEvents: 1,
@@ -348,6 +587,8 @@ func (c *checker) runSrvOnce(sc *srvCase) (int, string, []srvCall, []string) {
 		})
 	}()
 	stop := func() bool {
+		backend.draining.Store(true) // every callback is answered from now on, so that the flusher can finish
+		backend.release()
 		cancel()
 		select {
 		case <-runDone:
@@ -364,26 +605,9 @@ func (c *checker) runSrvOnce(sc *srvCase) (int, string, []srvCall, []string) {
 	client := &http.Client{Timeout: 10 * time.Second}
 	defer client.CloseIdleConnections()
 
+	sent := [][]srvPoint{}
 	want := map[string]*srvWant{}
-	unreported := func() []string {
-		present := map[string]bool{}
-		totals := map[string]int64{}
-		for _, call := range backend.snapshot() {
-			for _, s := range call.flat {
-				id := seriesIdentity(s)
-				present[id] = true
-				totals[id] += s.Counter
-			}
-		}
-		var out []string
-		for id, w := range want {
-			if !present[id] || (w.isCount && totals[id] < w.counter) {
-				out = append(out, id)
-			}
-		}
-		sort.Strings(out)
-		return out
-	}
+	unreported := func() []string { return reportedOf(backend.snapshot()).short(want) }
 	// a reported series that nobody sent decides the run; what it stands in for need not be waited for
 	foreign := func() bool {
 		for _, call := range backend.snapshot() {
@@ -399,32 +623,22 @@ func (c *checker) runSrvOnce(sc *srvCase) (int, string, []srvCall, []string) {
 	if c.srvMissing >= 2 {
 		watchdog = 3 * time.Second
 	}
-	for _, round := range sc.Rounds {
-		var posts [][]srvPoint
+	// sendRound returns "" or the reason why the run has to be abandoned
+	sendRound := func(round []srvPoint) string {
+		sent = append(sent, round)
+		want = wantOf(sc, sent)
 		for i := 0; i < len(round); {
 			p := round[i]
-			id := sc.identity(p)
-			if want[id] == nil {
-				want[id] = &srvWant{isCount: p.Type == 1}
-			}
-			want[id].counter += int64(p.Value)
 			if p.Path == "udp" {
 				// consecutive lines of one sender share a datagram
 				j := i + 1
 				lines := []string{srvLine(p)}
 				for j < len(round) && j < i+3 && round[j].Path == "udp" && round[j].Addr == p.Addr {
-					q := round[j]
-					qid := sc.identity(q)
-					if want[qid] == nil {
-						want[qid] = &srvWant{isCount: q.Type == 1}
-					}
-					want[qid].counter += int64(q.Value)
-					lines = append(lines, srvLine(q))
+					lines = append(lines, srvLine(round[j]))
 					j++
 				}
 				if !conn.push(p.Addr, strings.Join(lines, "\n")) {
-					stop()
-					return srvInconclusive, "udp-reader-did-not-take-datagram", nil, nil
+					return "udp-reader-did-not-take-datagram"
 				}
 				i = j
 				continue
@@ -443,19 +657,12 @@ func (c *checker) runSrvOnce(sc *srvCase) (int, string, []srvCall, []string) {
 				if clash {
 					break
 				}
-				qid := sc.identity(q)
-				if want[qid] == nil {
-					want[qid] = &srvWant{isCount: q.Type == 1}
-				}
-				want[qid].counter += int64(q.Value)
 				body = append(body, q)
 				i++
 			}
-			posts = append(posts, body)
 			raw, err := proto.Marshal(srvRaw(body))
 			if err != nil {
-				stop()
-				return srvInconclusive, "protobuf-marshal", nil, nil
+				return "protobuf-marshal"
 			}
 			status := 0
 			ok := mon.WaitUntil(srvWatchdog, func() bool {
@@ -469,24 +676,57 @@ func (c *checker) runSrvOnce(sc *srvCase) (int, string, []srvCall, []string) {
 				return true
 			})
 			if !ok || status != http.StatusAccepted {
-				stop()
-				return srvInconclusive, "http-ingestion-not-reachable", nil, nil
+				return "http-ingestion-not-reachable"
 			}
 		}
-		_ = posts
-		// the round is over when everything sent so far has been reported
-		if !mon.WaitUntil(watchdog, func() bool { return len(unreported()) == 0 || foreign() }) {
-			miss := unreported()
+		return ""
+	}
+	overlapped := 0
+	for ri := 0; ri < len(sc.Rounds); {
+		if why := sendRound(sc.Rounds[ri]); why != "" {
 			stop()
-			return srvMissing, "", backend.snapshot(), miss
+			return srvInconclusive, why, nil, nil
+		}
+		ri++
+		// the round is over when everything sent so far has been reported; while the backend holds the callbacks
+		// of a flush, the next round is sent (ingestion overlapping a flush that waits for its backend)
+		for {
+			done := mon.WaitUntil(watchdog, func() bool { return backend.holding.Load() || len(unreported()) == 0 || foreign() })
+			if backend.holding.Load() {
+				if ri < len(sc.Rounds) {
+					if why := sendRound(sc.Rounds[ri]); why != "" {
+						stop()
+						return srvInconclusive, why, nil, nil
+					}
+					ri++
+					overlapped++
+					// exposure, not synchronisation: the datagrams just sent get the time to reach the aggregators
+					// before the flush is let go; conservation holds whether they do or not
+					mon.WaitUntil(2*time.Millisecond, func() bool { return false })
+				}
+				backend.release()
+				mon.WaitUntil(srvWatchdog, func() bool { return !backend.holding.Load() })
+				continue
+			}
+			if !done {
+				miss := unreported()
+				stop()
+				return srvMissing, "", backend.snapshot(), miss
+			}
+			break
 		}
 	}
-	// two more complete flushes, so that the last flushes examined hold every series
+	r.Event("server_rounds_sent_while_a_flush_was_held", overlapped)
+	// a few more complete flushes, so that the last flushes examined hold every series
 	n0 := backend.n.Load()
 	mon.WaitUntil(5*time.Second, func() bool { return backend.n.Load() >= n0+int64(3*sc.Workers) })
 	if !stop() {
 		return srvInconclusive, "server-did-not-stop", nil, nil
 	}
+	backend.mu.Lock()
+	r.Event("server_flushes_held", backend.nHeld)
+	r.Event("server_callbacks_answered_with_error", backend.nErrors)
+	backend.mu.Unlock()
 	return srvOK, "", backend.snapshot(), nil
 }
 
@@ -508,43 +748,51 @@ func (c *checker) serverCase(sc *srvCase) {
 	}
 	r.Eval(1)
 	r.Event("server_cases", 1)
+	want := wantOf(sc, sc.Rounds)
+	rp := reportedOf(calls)
 	if status == srvMissing {
 		c.srvMissing++
-		r.Violation("server-series-never-reported-by-an-aggregator", fmt.Sprintf("%d workers, cloud %v: after two runs of up to %v the backend was never handed (or never the full counter total of) %q", sc.Workers, sc.Cloud, srvWatchdog, miss), sc)
+		absent := false
+		for _, id := range miss {
+			absent = absent || !rp.present[id]
+		}
+		sig := "server-reported-totals-short-of-what-was-sent"
+		if absent {
+			sig = "server-series-never-reported-by-an-aggregator"
+		}
+		r.Violation(sig, fmt.Sprintf("%d workers, cloud %v, backend script %q: after two runs of up to %v the aggregators had still not handed over everything sent for %q (counter totals, timer values, set members over all flushes)", sc.Workers, sc.Cloud, sc.Script, srvWatchdog, miss), sc)
 	}
-
-	// expected identities and counter totals
-	want := map[string]*srvWant{}
 	spellings := map[string]map[string]bool{}
 	for _, round := range sc.Rounds {
 		for _, p := range round {
 			id := sc.identity(p)
-			if want[id] == nil {
-				want[id] = &srvWant{isCount: p.Type == 1}
+			if spellings[id] == nil {
 				spellings[id] = map[string]bool{}
 			}
-			want[id].counter += int64(p.Value)
 			spellings[id][p.Path+":"+strings.Join(p.Tags, ",")+"/"+p.Key] = true
 		}
 	}
 
-	// the n-th map handed over for one aggregator is its contribution to flush n
-	nth := map[uintptr]int{}
+	// per flush (group of hand-overs, see srvBackend)
 	type place struct {
 		shard uintptr
 		key   string
 	}
 	flushes := map[int]map[string]map[place]bool{}
+	handed := map[int]map[uintptr]int{}
 	owner := map[string]uintptr{}
-	totals := map[string]int64{}
 	shards := map[uintptr]bool{}
 	sawForeign := false
 	for _, call := range calls {
-		n := nth[call.shard]
-		nth[call.shard] = n + 1
+		n := call.group
 		shards[call.shard] = true
 		if flushes[n] == nil {
 			flushes[n] = map[string]map[place]bool{}
+			handed[n] = map[uintptr]int{}
+		}
+		handed[n][call.shard]++
+		if handed[n][call.shard] == 2 {
+			r.Violation("server-aggregator-map-handed-to-backend-twice-in-one-flush", fmt.Sprintf("%d workers, backend script %q: in flush %d one aggregator's map was handed to the backend a second time before the flush was over (%d series in it): every series of that shard is reported twice in one flush", sc.Workers, sc.Script, n, len(call.flat)), sc)
 		}
 		keys := make([]string, 0, len(call.flat))
 		for k := range call.flat {
@@ -558,7 +806,6 @@ func (c *checker) serverCase(sc *srvCase) {
 				flushes[n][id] = map[place]bool{}
 			}
 			flushes[n][id][place{call.shard, s.TagsKey}] = true
-			totals[id] += s.Counter
 			if prev, ok := owner[id]; ok && prev != call.shard {
 				r.Violation("server-series-reported-by-different-aggregators-over-time", fmt.Sprintf("%d workers: series %q (type|name|tag set|source) was reported by one aggregator in an earlier flush and by another in flush %d (key %q)", sc.Workers, id, n, s.TagsKey), sc)
 			}
@@ -578,6 +825,9 @@ func (c *checker) serverCase(sc *srvCase) {
 	}
 	sort.Ints(ns)
 	for _, n := range ns {
+		if len(handed[n]) < sc.Workers {
+			r.Event("server_flush_groups_with_fewer_maps_than_workers", 1)
+		}
 		ids := make([]string, 0, len(flushes[n]))
 		for id := range flushes[n] {
 			ids = append(ids, id)
@@ -603,13 +853,36 @@ func (c *checker) serverCase(sc *srvCase) {
 			}
 		}
 	}
+	// conservation per series over all flushes: what the shard was handed is what it reports
 	if status == srvOK && !sawForeign { // with a foreign series the run was cut short
-		for id, w := range want {
-			if _, reported := owner[id]; !reported {
+		wids := make([]string, 0, len(want))
+		for id := range want {
+			wids = append(wids, id)
+		}
+		sort.Strings(wids)
+		for _, id := range wids {
+			w := want[id]
+			if !rp.present[id] {
 				continue // a series nobody sent took its place; reported above
 			}
-			if w.isCount && totals[id] != w.counter {
-				r.Violation("server-counter-total-differs-from-sent", fmt.Sprintf("series %q: %d sent, %d reported over all flushes and aggregators", id, w.counter, totals[id]), sc)
+			if w.typ == 1 && rp.counter[id] != w.counter {
+				r.Violation("server-counter-total-differs-from-sent", fmt.Sprintf("backend script %q: series %q: %d sent, %d reported over all flushes and aggregators", sc.Script, id, w.counter, rp.counter[id]), sc)
+			}
+			if w.typ == 2 {
+				for v, n := range rp.vals[id] {
+					if n != w.vals[v] {
+						r.Violation("server-timer-values-differ-from-sent", fmt.Sprintf("backend script %q: series %q: value %v was sent %d time(s) and reported %d time(s) over all flushes", sc.Script, id, v, w.vals[v], n), sc)
+						break
+					}
+				}
+			}
+			if w.typ == 4 {
+				for m := range rp.members[id] {
+					if !w.members[m] {
+						r.Violation("server-set-member-reported-that-nobody-sent", fmt.Sprintf("series %q: member %q", id, m), sc)
+						break
+					}
+				}
 			}
 		}
 	}
@@ -619,6 +892,11 @@ func (c *checker) serverCase(sc *srvCase) {
 			respelled++
 		}
 	}
+	hold, errs := false, false
+	for _, a := range sc.Script {
+		hold = hold || strings.Contains(a, "hold")
+		errs = errs || strings.Contains(a, "err")
+	}
 	r.Event("server_flush_maps_handed_to_backend", len(calls))
 	r.Event("server_series", len(want))
 	r.Event("server_series_sent_under_several_spellings", respelled)
@@ -627,14 +905,14 @@ func (c *checker) serverCase(sc *srvCase) {
 			respelled = 3
 		}
 		pow2 := sc.Workers&(sc.Workers-1) == 0
-		r.Nontrivial(fmt.Sprintf("server|w%d|pow2=%v|cloud=%v|static=%d|respelled%d", sc.Workers, pow2, sc.Cloud, len(sc.Static), respelled))
-		if r.WantSample() && !c.srvSampled && sc.Cloud && sc.Workers > 2 {
+		r.Nontrivial(fmt.Sprintf("server|w%d|pow2=%v|cloud=%v|static=%d|respelled%d|hold=%v|err=%v", sc.Workers, pow2, sc.Cloud, len(sc.Static), respelled, hold, errs))
+		if r.WantSample() && !c.srvSampled && sc.Cloud && sc.Workers > 2 && hold {
 			c.srvSampled = true
 			o := map[string][]string{}
 			for id, sp := range spellings {
 				o[id] = keysOf(sp)
 			}
-			r.Sample(map[string]interface{}{"kind": "server", "workers": sc.Workers, "cloud": sc.Cloud, "static": sc.Static, "sources": sc.Sources, "series_to_spellings(path:tags/key)": o, "flush_maps": len(calls)})
+			r.Sample(map[string]interface{}{"kind": "server", "workers": sc.Workers, "cloud": sc.Cloud, "static": sc.Static, "sources": sc.Sources, "backend_script": sc.Script, "series_to_spellings(path:tags/key)": o, "flush_maps": len(calls)})
 		}
 	}
 }
@@ -671,11 +949,16 @@ func genSrvCase(rng *rand.Rand) *srvCase {
 		}
 		ids[i].tags = tagSet(ids[i].tags, nil)
 	}
-	for round := 0; round < 2; round++ {
+	unique := 100
+	for round, nRounds := 0, 2+rng.Intn(3); round < nRounds; round++ {
 		var pts []srvPoint
 		for i, n := 0, 3+rng.Intn(8); i < n; i++ {
 			id := ids[rng.Intn(len(ids))]
 			p := srvPoint{Path: []string{"udp", "http"}[rng.Intn(2)], Type: id.typ, Name: id.name, Addr: id.addr, Value: 1 + rng.Intn(9)}
+			if p.Type == 2 || p.Type == 4 {
+				unique++
+				p.Value = unique // a timer value / set member names its datapoint
+			}
 			tags := append([]string{}, id.tags...)
 			// what the provider (or the static configuration) adds anyway may or may not be spelled out by the client
 			var extra []string
@@ -722,6 +1005,12 @@ func genSrvCase(rng *rand.Rand) *srvCase {
 			pts = append(pts, p)
 		}
 		sc.Rounds = append(sc.Rounds, pts)
+	}
+	// what the backend does with the flushes that carry data
+	if rng.Intn(5) < 3 {
+		for i, n := 0, 1+rng.Intn(3); i < n; i++ {
+			sc.Script = append(sc.Script, []string{"hold", "err", "hold+err", "ok", "hold"}[rng.Intn(5)])
+		}
 	}
 	return sc
 }
